@@ -757,6 +757,10 @@ with open(sys.argv[1], 'rb') as f:
     data = f.read()
 sys.stdout.buffer.write(data)
 sys.stdout.buffer.flush()
+if len(sys.argv) > 3:
+    # chatter on stderr that looks like TAP: the stream is the program's standard output, nothing of this may count
+    sys.stderr.write('not ok 991 - on stderr\\n1..77\\nok 5 # TODO on stderr\\n')
+    sys.stderr.flush()
 sys.exit(int(sys.argv[2]))
 '''
 BAD_RES = {'FAIL', 'ERROR', 'UNEXPECTEDPASS', 'TIMEOUT', 'INTERRUPT'}
@@ -778,21 +782,22 @@ def e2e_expect(lines: T.Sequence[str], rc: int) -> T.Tuple[T.Optional[bool], str
     return False, ''
 
 
-def e2e_run(root: str, cases: T.List[T.Tuple[T.List[str], int]]) -> T.Tuple[T.Dict[int, str], T.Any]:
+def e2e_run(root: str, cases: T.List[T.Tuple[T.List[str], int]], extra: T.Sequence[str] = ()) -> T.Tuple[T.Dict[int, str], T.Any]:
     """one project, one protocol:'tap' test per case -> ({index: result string}, Result of `meson test`)"""
     from harness import mesondrv
     files: T.Dict[str, T.Union[str, bytes]] = {'emit.py': EMIT_PY}
     mb = ["project('tapv')", f"py = find_program('{mesondrv.PY}')", "emit = files('emit.py')"]
     for i, (lines, rc) in enumerate(cases):
         files[f's/{i}.tap'] = ''.join(lines).encode('utf-8')
-        mb.append(f"test('t{i:05d}', py, args: [emit, files('s/{i}.tap'), '{rc}'], protocol: 'tap')")
+        noise = ", 'noise'" if i % 2 else ''
+        mb.append(f"test('t{i:05d}', py, args: [emit, files('s/{i}.tap'), '{rc}'{noise}], protocol: 'tap')")
     files['meson.build'] = '\n'.join(mb) + '\n'
     mesondrv.write_tree(root, files)
     r = mesondrv.run_sub(['setup', '--backend=none', 'b'], cwd=root)
     if r.rc != 0:
         raise HarnessError(f'meson setup of the TAP test project failed: {r!r}')
     try:
-        rt = mesondrv.run_sub(['test', '-C', 'b', '--no-rebuild', '--num-processes', '16'], cwd=root,
+        rt = mesondrv.run_sub(['test', '-C', 'b', '--no-rebuild', '--num-processes', '16'] + list(extra), cwd=root,
                               timeout=180 if len(cases) <= 100 else 600)
     except subprocess.TimeoutExpired as e:
         # a parser exception inside `meson test` can leave the run waiting for ever (seen with the int() limit defect
@@ -816,7 +821,19 @@ def e2e_run(root: str, cases: T.List[T.Tuple[T.List[str], int]]) -> T.Tuple[T.Di
 
 def e2e_check(root: str, cases: T.List[T.Tuple[T.List[str], int]], ev: Evidence) -> T.List[Failure]:
     fails: T.List[Failure] = []
-    got, rt = e2e_run(root, cases)
+    # how stderr is shown (--no-stdsplit merges it into the displayed output) must not change what is parsed: the same
+    # project is run a second time with it, and the verdicts of that run are judged by the same rule
+    for mode, extra in (('', []), ('/no-stdsplit', ['--no-stdsplit'] + (['--verbose'] if len(cases) % 2 else []))):
+        fs = _e2e_check_mode(root + mode.replace('/', '-'), cases, ev if not mode else Evidence(), extra, mode)
+        fails.extend(fs)
+        if fs:
+            break
+    return fails
+
+
+def _e2e_check_mode(root: str, cases: T.List[T.Tuple[T.List[str], int]], ev: Evidence, extra: T.List[str], mode: str) -> T.List[Failure]:
+    fails: T.List[Failure] = []
+    got, rt = e2e_run(root, cases, extra)
     if rt.unhandled or len(got) != len(cases):
         # name the streams `meson test` never reported: one of them is what made it crash / hang
         lost = [{'lines': l, 'rc': rc} for i, (l, rc) in enumerate(cases) if i not in got]
@@ -838,8 +855,8 @@ def e2e_check(root: str, cases: T.List[T.Tuple[T.List[str], int]], ev: Evidence)
                 cls='e2e/bad' if want else 'e2e/good')
         if bad != want:
             R = reftap.interpret(lines)
-            sig = 'e2e/reported-good' if want else 'e2e/reported-bad-without-cause'
-            fails.append(Failure(sig, {'e2e': True, 'lines': lines, 'rc': rc},
+            sig = ('e2e/reported-good' if want else 'e2e/reported-bad-without-cause') + mode
+            fails.append(Failure(sig, {'e2e': True, 'lines': lines, 'rc': rc, 'index': i},
                                  f'`meson test` reported {res} for a protocol:tap test printing {_show(lines)} and exiting {rc}; '
                                  f'reference: subtests {_shown(R.tests)}, classes {R.named}, bail-out {R.bailout is not None} '
                                  f'=> must be {"bad" if want else "not bad"}'))
@@ -932,6 +949,8 @@ def run(ctx: Ctx) -> None:
 def replay(ctx: Ctx, case: T.Any, doc: dict) -> T.Optional[Failure]:
     if case.get('e2e'):
         cases = [(c['lines'], c['rc']) for c in case['cases']] if 'cases' in case else [(case['lines'], case['rc'])]
+        if 'cases' not in case and case.get('index', 0) % 2:
+            cases.insert(0, (['ok 1\n', '1..1\n'], 0))    # odd positions are the tests that also write to stderr
         fs = e2e_check(os.path.join(ctx.scratch, 'replay-e2e'), cases, Evidence())
         return fs[0] if fs else None
     lines = list(case['lines'])
